@@ -426,7 +426,7 @@ CLAIMS = {
                 "through the real import hook (dynamic seeding on) under {BRANCH}, {LINE}, {BRANCH, LINE} must return / raise / "
                 "print / mutate its arguments exactly like the uninstrumented call.",
         "technique": "bounded differential contract check (the uninstrumented run is the oracle)",
-        "note": "no unbounded claim: the statement quantifies over all programs and needs a semantics of CPython bytecode execution; the stack-machine lemma on the injected instruction sequences planned in DESIGN.md is not built. CHECKED coverage is not run (a seeding agent reported interpreter crashes under it on the unchanged tree - not investigated); Python 3.12 bytecode only; outcomes and lines are compared per source line, not per bytecode offset. Known findings (recorded per function): the tracer re-evaluates user comparison/truth operators (side effects "
+        "note": "no unbounded claim: the statement quantifies over all programs and needs a semantics of CPython bytecode execution; the stack-machine lemma on the injected instruction sequences planned in DESIGN.md is not built. CHECKED coverage is covered by C01's second part only; Python 3.12 bytecode only; outcomes and lines are compared per source line, not per bytecode offset. Known findings (recorded per function): the tracer re-evaluates user comparison/truth operators (side effects "
                 "run again), consumes one-shot iterators in membership tests, and the seeding instrumentation of startswith/"
                 "endswith raises TypeError for tuple prefixes.",
     },
@@ -437,7 +437,7 @@ CLAIMS = {
                 "lineids_to_linenos, import-time lines removed on both sides) under {LINE} and {BRANCH, LINE}; every executed line "
                 "must be a registered line and the reported set must equal the executed registered set.",
         "technique": "bounded differential contract check (sys.monitoring LINE events are the oracle)",
-        "note": "no unbounded claim: the statement quantifies over all programs and needs a semantics of CPython bytecode execution; the stack-machine lemma on the injected instruction sequences planned in DESIGN.md is not built. CHECKED coverage is not run (a seeding agent reported interpreter crashes under it on the unchanged tree - not investigated); Python 3.12 bytecode only; outcomes and lines are compared per source line, not per bytecode offset. Known findings: only consequences of the two C01 behaviour changes.",
+        "note": "no unbounded claim: the statement quantifies over all programs and needs a semantics of CPython bytecode execution; the stack-machine lemma on the injected instruction sequences planned in DESIGN.md is not built. CHECKED coverage is covered by C01's second part only; Python 3.12 bytecode only; outcomes and lines are compared per source line, not per bytecode offset. Known findings: only consequences of the two C01 behaviour changes.",
     },
     "C03": {
         "category": "other",
@@ -445,7 +445,7 @@ CLAIMS = {
                 "POP_JUMP_IF_*, FOR_ITER mapped to (line, outcome)) of the uninstrumented call against the (predicate, outcome) "
                 "pairs the real tracer reports with distance 0 for the instrumented call, under {BRANCH} and {BRANCH, LINE}.",
         "technique": "bounded differential contract check (sys.monitoring BRANCH events are the oracle)",
-        "note": "no unbounded claim: the statement quantifies over all programs and needs a semantics of CPython bytecode execution; the stack-machine lemma on the injected instruction sequences planned in DESIGN.md is not built. CHECKED coverage is not run (a seeding agent reported interpreter crashes under it on the unchanged tree - not investigated); Python 3.12 bytecode only; outcomes and lines are compared per source line, not per bytecode offset. Known findings: a membership test that raises TypeError ('1 in 5') is recorded as the False outcome (pinned by "
+        "note": "no unbounded claim: the statement quantifies over all programs and needs a semantics of CPython bytecode execution; the stack-machine lemma on the injected instruction sequences planned in DESIGN.md is not built. CHECKED coverage is covered by C01's second part only; Python 3.12 bytecode only; outcomes and lines are compared per source line, not per bytecode offset. Known findings: a membership test that raises TypeError ('1 in 5') is recorded as the False outcome (pinned by "
                 "the repository's tests); one consequence of the C01 iterator finding.",
     },
 }
@@ -453,6 +453,9 @@ CLAIMS = {
 
 # additions of round 3 (appended to the claim texts above)
 ROUND3 = {
+    'C01': " Second part: the same comparison under {CHECKED} and {CHECKED, LINE} (checked coverage rewrites every load, store, attribute, subscript, slice, call, jump and return), every function in a process of its own because a wrong rewrite can crash the interpreter; a process that dies or cannot import the instrumented module is a violation. This part found three defects of the checked-coverage instrumentation on Python 3.12 (with statements, slices, inlined comprehensions), fixed in 64b7246, 7498902, 09850f7. H-prog additions: a while loop around try/except/finally, bytes operands that are not valid UTF-8.",
+    'C03': " The entry of a branch-less code object is compared as well (reported as executed exactly when sys.monitoring saw a line of it, import-time entries subtracted).",
+    'C15': " (3) Bounded, sampled: 800 (4000) seeded random histories of 14 operations out of 15 - the mutation operator, the insertion mutation alone, relative and boundary crossover, the test factory's insert / graceful delete / change-call / change-type / field / value / call mutations, chop, unused-variable removal, forward-dependency removal, clone - over 4 test cases built by the real TestFactory for a generated cluster, maximum length 12; all clauses checked on every live test case after every operation. This part found that the insertion mutation could overshoot the maximum length (fixed 88da910).",
     'C07': ' Bounded addition: the same four goal-graph checks on 1806 generated functions (every chain of <= 3 nested if / if-else / while True / while / for / try-except around 7 innermost bodies; quick: depth <= 2 and a seeded sample of depth 3).',
     'C08': ' The AST line ranges enter _in_cover as ghost fields (first line, last line, list of definitions; scope_line_range and nodes_of_class are assumed to return them) and refutations are replayed on real ast nodes built from the counter-model. Bounded addition: a module of one-line definitions (also as last statement of their scope) with every scope as only_cover / no_cover entry.',
     'C19': ' Bounded addition: the real TestSuiteWriter.write (with and without AssertionMinimization and UnusedStatementsTestCaseVisitor) on every ordered selection of <= 2 (thorough 3) of 6 test cases, among them test cases whose statements coincide once unused bindings are stripped but whose assertions differ; the written file is parsed and every attached assertion must follow its statement in some exported function.',
